@@ -93,10 +93,27 @@ static table_t* bytes_table(int codec, const uint8_t* b, int64_t n) {
     table_t* t = (table_t*)calloc(1, sizeof *t); t->ncols = 1; t->cols = (tcol_t*)calloc(1, sizeof(tcol_t)); tcol_t* col = &t->cols[0]; col->type = CARQUET_PHYSICAL_FIXED_LEN_BYTE_ARRAY; col->type_length = 1; col->rep = CARQUET_REPETITION_REQUIRED; snprintf(col->name, sizeof col->name, "bytes");
     t->nrg = 1; t->rg = (tchunk_t**)calloc(1, sizeof(tchunk_t*)); t->rg_rows = (int64_t*)calloc(1, 8); t->codec = codec; t->page_size = 1 << 22; t->rg_rows[0] = n; t->rg[0] = (tchunk_t*)calloc(1, sizeof(tchunk_t)); tchunk_t* k = &t->rg[0][0];
     k->nlevels = n; k->def = (int16_t*)calloc((size_t)n + 1, 2); k->rep = (int16_t*)calloc((size_t)n + 1, 2); k->nvals = n; k->fixed = (uint8_t*)v_exact((size_t)n + 1); memcpy(k->fixed, b, (size_t)n); k->nbatches = 1; k->batch_rows = (int64_t*)malloc(8); k->batch_rows[0] = n; return t; }
+/* an OPTIONAL BOOLEAN column whose definition levels form runs of chosen lengths: run headers are varints of (length << 1), so lengths
+ * 64, 8192 and 1 048 576 are where the header grows by a byte */
+static table_t* level_run_table(const int64_t* runs, int nruns, int first_level) { int64_t n = 0; for (int i = 0; i < nruns; i++) n += runs[i];
+    table_t* t = (table_t*)calloc(1, sizeof *t); t->ncols = 1; t->cols = (tcol_t*)calloc(1, sizeof(tcol_t)); tcol_t* col = &t->cols[0]; col->type = CARQUET_PHYSICAL_BOOLEAN; col->rep = CARQUET_REPETITION_OPTIONAL; col->max_def = 1; snprintf(col->name, sizeof col->name, "runs");
+    t->nrg = 1; t->rg = (tchunk_t**)calloc(1, sizeof(tchunk_t*)); t->rg_rows = (int64_t*)calloc(1, 8); t->codec = CARQUET_COMPRESSION_UNCOMPRESSED; t->page_size = 1 << 26; t->rg_rows[0] = n; t->rg[0] = (tchunk_t*)calloc(1, sizeof(tchunk_t)); tchunk_t* k = &t->rg[0][0];
+    k->nlevels = n; k->def = (int16_t*)calloc((size_t)n + 1, 2); k->rep = (int16_t*)calloc((size_t)n + 1, 2); int64_t p = 0, nv = 0; int lvl = first_level; for (int i = 0; i < nruns; i++) { for (int64_t q = 0; q < runs[i]; q++) { k->def[p++] = (int16_t)lvl; nv += lvl; } lvl ^= 1; }
+    k->nvals = nv; k->fixed = (uint8_t*)v_exact((size_t)nv + 1); for (int64_t q = 0; q < nv; q++) k->fixed[q] = (uint8_t)(q % 3 == 0); k->nbatches = 1; k->batch_rows = (int64_t*)malloc(8); k->batch_rows[0] = n; return t; }
+static void level_run_cases(const char* dir, uint64_t seed, int big) { char tag[160]; static const int64_t EDGE[] = {63, 64, 65, 8191, 8192, 8193, 8199, 16384, 1048575, 1048576, 1048577}; int ne = big ? 11 : 8;
+    for (int e = 0; e < ne; e++) for (int shape = 0; shape < 3; shape++) { int64_t runs[3]; int nr; if (shape == 0) { runs[0] = EDGE[e]; nr = 1; } else if (shape == 1) { runs[0] = 1 + (int64_t)vrng_below(&R, 7); runs[1] = EDGE[e] + (8 - runs[0]) % 8; runs[2] = 3; nr = 3; } else { runs[0] = 3; runs[1] = EDGE[e]; runs[2] = 1; nr = 3; }
+        table_t* t = level_run_table(runs, nr, shape == 2 ? 0 : 1); if (shape == 0 && e % 2) t->rg[0][0].null_def_levels = 1; snprintf(tag, sizeof tag, "level-runs seed=%llu run=%lld shape=%d", (unsigned long long)seed, (long long)EDGE[e], shape); run_case(t, dir, 400000 + e * 3 + shape, tag); v_count("level_run_boundary_tables"); tbl_free(t); } }
+/* a table that is created and closed without a single write_batch or new_row_group call */
+static void create_close_only_case(const char* dir, uint64_t seed) { char tag[120]; tgen_t gp = {3, 5, 0, -1, -1, -1, 0, 1}; table_t* t = tbl_generate(&R, &gp); t->rg_rows[0] = 0; for (int c = 0; c < t->ncols; c++) { tchunk_t* k = &t->rg[0][c]; k->nlevels = 0; k->nvals = 0; k->nbatches = 0; k->ba_heap_n = 0; }
+    snprintf(tag, sizeof tag, "create-close-only seed=%llu cols=%d", (unsigned long long)seed, t->ncols); run_case(t, dir, 500000, tag); run_case(t, dir, 500001, tag); /* once through each open path of the round-trip check */ v_count("create_close_only_tables"); tbl_free(t); }
+
 static void codec_boundary_cases(const char* dir, uint64_t seed, int count) { char tag[160];
     static const int64_t RS[] = {1, 3, 4, 8, 11, 12, 13, 14, 15, 16, 17, 59, 60, 61, 254, 255, 256, 269, 270, 271, 524, 525, 526, 779, 780, 781, 1034, 1035, 2047, 2048, 2049, 4095, 4096, 32767, 32768, 32769, 65534, 65535, 65536, 65537};
     static const int64_t LS[] = {4, 5, 6, 7, 8, 11, 12, 14, 15, 16, 18, 19, 20, 33, 59, 60, 61, 63, 64, 65, 66, 67, 68, 69, 128, 129, 130, 131, 132, 273, 274, 275, 528, 1000, 4096, 70000};
     static const int64_t TS[] = {0, 0, 1, 3, 4, 5, 6, 11, 12, 13, 14, 15, 16, 270, 525};
+    { static const int64_t CR[] = {2047, 2048, 2049, 65535, 65536, 65537}; static const int64_t CL[] = {4, 8, 64}; /* every critical match distance x a few lengths x Snappy and LZ4, always */
+      for (int a = 0; a < 6; a++) for (int b2 = 0; b2 < 3; b2++) for (int cd = 0; cd < 2; cd++) { int64_t r = CR[a], L = CL[b2], tl = 13; int64_t n = r + L + tl; uint8_t* b = (uint8_t*)malloc((size_t)n + 1); vrng_bytes(&R, b, (size_t)r); for (int64_t i = r; i < r + L; i++) b[i] = b[i - r]; vrng_bytes(&R, b + r + L, (size_t)tl);
+          table_t* t = bytes_table(cd ? CARQUET_COMPRESSION_LZ4 : CARQUET_COMPRESSION_SNAPPY, b, n); snprintf(tag, sizeof tag, "codec-boundary seed=%llu codec=%d literal=%lld match_len=%lld (fixed set)", (unsigned long long)seed, t->codec, (long long)r, (long long)L); run_case(t, dir, 250000 + a * 6 + b2 * 2 + cd, tag); v_count("codec_boundary_pages"); tbl_free(t); free(b); } }
     for (int q = 0; q < count; q++) { int codec = T_CODECS[1 + q % 4]; int64_t r = vrng_chance(&R, 2, 3) ? RS[vrng_below(&R, sizeof RS / sizeof *RS)] : 1 + (int64_t)vrng_below(&R, 3000); int64_t L = vrng_chance(&R, 2, 3) ? LS[vrng_below(&R, sizeof LS / sizeof *LS)] : 4 + (int64_t)vrng_below(&R, 400); int64_t tl = TS[vrng_below(&R, sizeof TS / sizeof *TS)];
         int64_t n = r + L + tl; uint8_t* b = (uint8_t*)malloc((size_t)n + 1); vrng_bytes(&R, b, (size_t)r); for (int64_t i = r; i < r + L; i++) b[i] = b[i - r]; vrng_bytes(&R, b + r + L, (size_t)tl);
         if (vrng_chance(&R, 1, 4)) { /* a second match further on, so that one sequence follows another */ int64_t off2 = 1 + (int64_t)vrng_below(&R, (uint64_t)(r < 1 ? 1 : r)); for (int64_t i = r + L; i < n; i++) b[i] = b[i - off2]; }
@@ -152,7 +169,7 @@ int main(int argc, char** argv) {
         { static const int NC[] = {9, 10, 11, 12, 13, 14, 15, 16, 17, 18, 31, 32, 33, 63, 64, 65, 127, 128, 129}; static const int NG[] = {5, 6, 7, 8, 13, 14, 15, 16, 17, 31, 32, 33};
           for (int q = 0; q < (int)(sizeof NC / sizeof *NC) + (int)(sizeof NG / sizeof *NG); q++) { int wide = q < (int)(sizeof NC / sizeof *NC); tgen_t g2 = {8, 12, 0, -1, -1, -1, 0, wide ? 1 + (int)vrng_below(&R, 2) : NG[q - (int)(sizeof NC / sizeof *NC)], wide ? NC[q] : 1 + (int)vrng_below(&R, 3)};
               table_t* t = tbl_generate(&R, &g2); snprintf(tag, sizeof tag, "shape seed=%llu cols=%d row_groups=%d", (unsigned long long)seed, t->ncols, t->nrg); run_case(t, dir, 100000 + q, tag); v_count(wide ? "shape_sweep_wide_tables" : "shape_sweep_many_row_groups"); tbl_free(t); } }
-        codec_boundary_cases(dir, seed, scale >= 2 ? 600 : 120); lookalike_cases(dir, seed, scale >= 2 ? 60 : 12);
+        codec_boundary_cases(dir, seed, scale >= 2 ? 600 : 120); lookalike_cases(dir, seed, scale >= 2 ? 60 : 12); level_run_cases(dir, seed, scale >= 2); create_close_only_case(dir, seed);
         v_sample("gen: %lld random tables: 1..8 columns over 7 physical types x REQUIRED/OPTIONAL, 1..4 row groups, rows 0..400 (some up to 60000), 5 codecs, page_size {1,64,1024,65536,default}, batch partitions {single,1-row,small,random incl. 0-row,halving}, interleaved columns", (long long)cases);
     } else if (!strcmp(mode, "enum")) {
         /* all (null pattern x batch partition) pairs for one OPTIONAL column of n rows; all batch partitions for a boolean column */
